@@ -459,9 +459,35 @@ class Executor:
 
     def operand(self, st, frame, op):
         if op.kind == "const":
-            return self.const(op.text)
+            v = self.const(op.text)
+            if isinstance(v, Lazy) and v.ty == "&?promoted":
+                pv = self.eval_promoted(st, frame, v.uid)
+                if pv is not None:
+                    return pv
+            return v
         cell, path = self.eval_place(st, frame, op.place)
         return self.read(st, cell, path)
+
+    def eval_promoted(self, st, frame, text):
+        """run the (straight-line) body of a promoted constant owned by the current function, when the dump has it;
+        None = leave it an unknown fixed value"""
+        k = re.search(r"(promoted\[\d+\])$", text).group(1)
+        owner = frame.fn.name
+        cands = self.prog.promoted.get(f"{owner}::{k}", [])
+        if len(cands) != 1:
+            return None
+        key = ("promoted", cands[0].name, cands[0].text_hash)
+        cache = st.ghost.setdefault("promoted_cache", {})
+        if key in cache:
+            return cache[key]
+        try:
+            res = self.exec_fn(st, cands[0], [], 0)
+        except Unencodable:
+            return None
+        if len(res) != 1 or res[0][1].kind != "ret" or res[0][0] is not st:
+            return None
+        cache[key] = res[0][1].value
+        return res[0][1].value
 
     def as_prim(self, v, what=""):
         if isinstance(v, Prim):
@@ -1054,7 +1080,11 @@ class MirProgram:
         self.by_key = {}       # (trait|None, type, method) -> [fn]
         self.free = {}         # last segment -> [fn]
         self.closures = {}     # '{closure@...}' -> fn
+        self.promoted = {}     # 'owner::promoted[k]' -> fn
         for f in fns:
+            if getattr(f, "is_promoted", False):
+                self.promoted.setdefault(f.name, []).append(f)
+                continue
             self._index(f)
 
     IMPL_RE = re.compile(r"^(?P<mod>.*?)<impl at (?P<file>[^:>]+):(?P<line>\d+):(?P<col>\d+): \d+:\d+>::(?P<rest>.*)$")
